@@ -43,7 +43,7 @@ VARIABLES si, op, pos, toks
 vars == <<si, op, pos, toks>>
 
 DamageOps == {"cut-after", "cut-in-quote", "delete-closer", "delete-quote", "rename-function", "drop-args", "drop-last-arg", "unknown-axis",
-              "bad-qname-1", "bad-qname-2", "bad-qname-3",
+              "bad-qname-1", "bad-qname-2", "bad-qname-3", "bad-qname-4", "bad-qname-5",
               \* near misses: a name one character away from a known axis / function name
               "axis-plus-s", "axis-minus-1", "axis-capital", "function-plus-s", "function-minus-1"}
 
@@ -144,6 +144,12 @@ Damaged ==
       [] op = "bad-qname-2" ->    \* ":a"
            IF t.k = "name" /\ ~(pos < Len(ts) /\ IsSym(ts[pos + 1], "::")) /\ ~(pos < Len(ts) /\ IsSym(ts[pos + 1], "("))
            THEN [ts EXCEPT ![pos] = TBad(":" \o t.s)] ELSE NoDamage
+      [] op = "bad-qname-4" ->    \* "p:-a"  (a local part must start like a name)
+           IF t.k = "name" /\ ~(pos < Len(ts) /\ IsSym(ts[pos + 1], "::")) /\ ~(pos < Len(ts) /\ IsSym(ts[pos + 1], "("))
+           THEN [ts EXCEPT ![pos] = TBad("p:-" \o t.s)] ELSE NoDamage
+      [] op = "bad-qname-5" ->    \* "p:.a"
+           IF t.k = "name" /\ ~(pos < Len(ts) /\ IsSym(ts[pos + 1], "::")) /\ ~(pos < Len(ts) /\ IsSym(ts[pos + 1], "("))
+           THEN [ts EXCEPT ![pos] = TBad("p:." \o t.s)] ELSE NoDamage
       [] op = "bad-qname-3" ->    \* "p:1"
            IF t.k = "name" /\ ~(pos < Len(ts) /\ IsSym(ts[pos + 1], "::")) /\ ~(pos < Len(ts) /\ IsSym(ts[pos + 1], "("))
            THEN [ts EXCEPT ![pos] = TBad(t.s \o ":1")] ELSE NoDamage
